@@ -4,6 +4,7 @@ H8: operation sequences over the lifecycle alphabet against children with
 chosen dispositions; invariants evaluated from /proc after every operation
 (single-threaded, at quiescent points)."""
 import gc
+import tempfile
 import zlib
 import itertools
 import os
@@ -260,6 +261,14 @@ def pty_sequence(case, acc):
         ctx.child.delayafterclose = ctx.child.delayafterterminate = d
         ctx.child.ptyproc.delayafterclose = ctx.child.ptyproc.delayafterterminate = d
         ctx.child.delaybeforesend = None
+        if case.get('deadlog'):
+            # log files were attached and the caller has closed them already (its `with open(...) as log:` block is
+            # over): the life-cycle operations have nothing to log and must work as ever
+            acc.count('sequences_with_closed_log_files')
+            for nm in ('logfile', 'logfile_read', 'logfile_send')[:case['deadlog']]:
+                f = tempfile.TemporaryFile()
+                setattr(ctx.child, nm, f)
+                f.close()
         ctx.pid = pup.wait_ready()
         st = proc_stat(ctx.pid)
         ctx.start = st[2]
@@ -338,6 +347,12 @@ def fd_sequence(case, acc):
         s2 = a.dup()
         fdnum = s2.fileno()
         c = socket_pexpect.SocketSpawn(s2, timeout=2)
+    if case.get('deadlog'):
+        acc.count('sequences_with_closed_log_files')
+        for nm in ('logfile', 'logfile_read', 'logfile_send')[:case['deadlog']]:
+            f = tempfile.TemporaryFile()
+            setattr(c, nm, f)
+            f.close()
     fs = os.fstat(fdnum)
     ident = (fs.st_dev, fs.st_ino)
     closed_ok = False
@@ -478,6 +493,14 @@ def plan(tier, seed):
     for _ in range(60 if tier == 'quick' else 2500):
         cases.append({'kind': 'pty', 'disp': rng.choice(DISPS),
                       'seq': [rng.choice(PTY_OPS) for _ in range(rng.randint(3, 6))], 'enum': False})
+    quiet_pty = ['isalive', 'wait', 'kill0', 'killTERM', 'terminate', 'terminateF', 'closeNF', 'close', 'with_exc', 'del']
+    for i in range(40 if tier == 'quick' else 600):
+        cases.append({'kind': 'pty', 'disp': rng.choice(DISPS), 'deadlog': 1 + i % 3,
+                      'seq': [rng.choice(quiet_pty) for _ in range(rng.randint(1, 4))], 'enum': False})
+    for i in range(30 if tier == 'quick' else 300):
+        cases.append({'kind': 'fd', 'tr': ['fd', 'socket'][i % 2], 'deadlog': 1 + i % 3,
+                      'seq': [rng.choice(['isalive', 'close', 'with_exc', 'del', 'peer_close']) for _ in range(rng.randint(1, 4))],
+                      'enum': False})
     for tr in ('fd', 'socket'):
         for d in range(1, 4 if tier == 'quick' else 5):
             for s in itertools.product(FD_OPS, repeat=d):
